@@ -20,20 +20,6 @@ open Trso (isTnode tnode nsort mem_nsort)
 
 /-! ### the class of simplified events covered by the theorem (decidable) -/
 
-/-- a STARRED literal subscript `+X` of the query names a vertex of `An(Y_*)` that is summed out: in the answer of
-Algorithm 2 the transported factor reads `X` at the bound value, not at `+X` (C19's `literalBound` is the unstarred half:
-there the factorised expression itself is already wrong) -/
-def starBound (q : Event) (D : List Var) : Bool :=
-  q.any fun p => p.1.ivs.any fun i =>
-    i.star && decide (i.name ∈ D.map (·.name)) && decide (i.name ∉ q.map (·.1.name))
-
-/-- **the class of (simplified, filled) events the value theorem covers**: readable (no self-intervened variable, no
-variable intervening twice on one name), and outside `multiWorld` / `literalBound` / `outcomeParentValue` (C19) and
-`starBound` -/
-def ctfSoundClass (g : MG Name) (q : Event) : Except Err Bool := do
-  let D ← ancestralSet g q
-  pure (readableQuery q && !multiWorld D && !literalBound q D && !outcomeParentValue g q D && !starBound q D)
-
 theorem ctfSoundClass_true (g : MG Name) (q : Event) (h : ctfSoundClass g q = .ok true) :
     readableQuery q = true ∧ factorizeClasses g q = .ok (false, false, false) ∧
     ∀ D, ancestralSet g q = .ok D → ∀ p ∈ q, ∀ i ∈ p.1.ivs, i.star = true → i.name ∈ D.map (·.name) →
